@@ -89,6 +89,8 @@ def main():
     R = mcheck.MRun(vc.REPO, sc, 'codegen', max_depth=60)
     cands = [c for c in K.k_render_field(R, 1 if tier == 'quick' else 3, {'C14'}) if c['prop'] == 'C14']
     cands += K.k_find_deprecation(R, 2, 2 if tier == 'quick' else 3)
+    # the strategy must only ever remove the deprecated fields themselves: selection expansion with symbolic deprecation / strategy
+    cands += [c for c in K.k_object_selection(R, 2 if tier == 'quick' else 3) if c['prop'] == 'C14']
     nnat = native_matrix(rt, out)
     replayed = 0
     seen = set()
@@ -96,7 +98,18 @@ def main():
         if c['what'] in seen:
             continue
         seen.add(c['what'])
-        if c['kernel'] == 'render':
+        if c['kernel'] == 'object_selection':
+            import consumer
+            import abstract_common as AC
+            ok, desc, rp = AC.confirm_object(consumer.Consumer(sc), c['model'])
+            replayed += 1
+            if ok is False:
+                out.violation('selection:deny-drops-other-fields', desc + f" (strategy {c['model']['strategy']}, deprecated {c['model']['deprecated']})", dict(kind='selection', **rp))
+            elif ok is None:
+                out.inconc(f'selection counterexample could not be replayed: {desc}')
+            else:
+                out.inconc(f"selection counterexample {c['model']} did not reproduce natively")
+        elif c['kernel'] == 'render':
             mdl = c['model']
             name = 'f'
             reason = mdl['reason']
@@ -137,5 +150,22 @@ def main():
 
 def replay(path):
     p = json.load(open(path))
+    sc = vc.scratch(PROP + 'r')
+    if p.get('kind') == 'selection':
+        import consumer
+        import abstract_common as AC
+        ok, desc, _ = AC.confirm_object(consumer.Consumer(sc), p['model'])
+        print(desc)
+        return 1 if ok is False else 0
+    if p.get('kind') == 'solver' and 'sdl' in p:
+        rt = native.ReplayTool(sc)
+        mdl = p['model']
+        r = rt.gen(p['sdl'], 'query Q { f }\n', p.get('options') or {})
+        present, want = expected((mdl['strategy'] or 'warn').lower(), mdl['deprecated'], mdl['reason'])
+        attrs = field_attrs(r['text'], 'ResponseData') if r['status'] == 'ok' else None
+        got_present = attrs is not None and 'f' in attrs
+        dep_attrs = [a for a in (attrs or {}).get('f', []) if a.startswith('deprecated')]
+        print(json.dumps(dict(present=got_present, attrs=dep_attrs, documented_present=present, documented_attr=want)))
+        return 1 if (r['status'] != 'ok' or got_present != present or (present and dep_attrs != ([want] if want else []))) else 0
     print(json.dumps(p)[:800])
     return 1
